@@ -664,7 +664,8 @@ class Interp:
                 return [it.elem(k) for k in range(it.length)]
             return None
         if isinstance(it, Opaque) and hasattr(it, "items_concrete"):
-            return it.items_concrete(self)
+            r = it.items_concrete(self)
+            return r
         if isinstance(it, Sym) or isinstance(it, (int, Fraction, bool)) or it is None:
             raise PyRaise("TypeError", "object is not iterable")
         raise Unsupported(f"iteration over {type(it).__name__}")
@@ -1094,7 +1095,12 @@ class Interp:
             ov = self.eval(f.value, env)
             return self.call_method(ov, f.attr, args, kwargs, env)
         if isinstance(f, ast.Name) and f.id == "super" and env.lookup("super") is UNDEF:
-            raise Unsupported("super() as value")
+            if args or kwargs or env.func is None or env.func.cls is None:
+                raise Unsupported("super() with arguments / outside a method")
+            first = env.func.node.args.args[0].arg if env.func.node.args.args else None
+            if first is None:
+                raise Unsupported("super() in a method without self")
+            return SuperRef(env.lookup(first), env.func.cls)
         fv = self.eval(f, env)
         return self.call_value(fv, args, kwargs)
 
